@@ -4,6 +4,7 @@ import (
 	"flag"
 	"fmt"
 	"math/rand"
+	"os"
 	"strconv"
 	"strings"
 
@@ -365,7 +366,55 @@ func init() {
 	})
 }
 
+// c04Late: a sub-command declared on the application after it has already been run must be routable
+func c04Late(c *core.Ctx) {
+	root, _ := treeFor(c, "C04late", 10, false)
+	first, _ := treeInvocation(c.R, root, false, 20)
+	if hasHelp(first) {
+		return
+	}
+	cnt := 1000 + c.Index
+	late := genTree(c.R, 0, &cnt, nil, "latecmd", false, false, false)
+	late.ID = 999
+	seg := gen.Sentence(c.R, gen.ImplicitProg(late.Prog), gen.Cfg{})
+	rootSeg := gen.Sentence(c.R, levelProg(root, false), gen.Cfg{})
+	for _, tok := range rootSeg {
+		if isAliasOfKid(root, tok) != nil {
+			rootSeg = nil
+		}
+	}
+	argv := append(append(append([]string{}, rootSeg...), late.Aliases[c.R.Intn(len(late.Aliases))]), seg...)
+	if hasHelp(argv) {
+		return
+	}
+	app := &drive.App{Root: root, Policy: flag.ContinueOnError}
+	b := drive.Build(app)
+	d := treeDesc{Tree: treeStr(root), Argv: argv, Note: fmt.Sprintf("after a first Run with %q, the command %s is declared on the application; then this invocation", first, treeStr(late))}
+	c.Journal(d)
+	b.Run(first)
+	// the root's own tokens of the second invocation: none (the root must accept an empty segment for the test to be meaningful)
+	b.AddKid(late)
+	e := expectTree(root, argv, false)
+	if e.unclaimed || e.kind != "RUN" || e.node != late {
+		c.LibDone()
+		c.Inc("late_not_applicable")
+		return
+	}
+	o := b.Run(argv)
+	c.LibDone()
+	c.Eval()
+	c.Nontrivial("late", d.Tree, fmt.Sprintf("%q", argv))
+	if !checkRun(c, e, o, false) {
+		return
+	}
+	c.Inc("late_declared_command_routed")
+}
+
 func runC04(c *core.Ctx) {
+	if c.Index%10 == 9 {
+		c04Late(c)
+		return
+	}
 	root, version := treeFor(c, "C04", 10, false)
 	argv, levels := treeInvocation(c.R, root, version, 33)
 	if hasHelp(argv) {
@@ -715,6 +764,10 @@ func c14One(c *core.Ctx, root *drive.Cmd, version bool, policy flag.ErrorHandlin
 	c.Journal(d)
 	app := &drive.App{Root: root, Policy: policy, Version: version}
 	randomPolicies(c.R, app)
+	if c.R.Intn(6) == 0 {
+		os.Setenv("COLUMNS", []string{"0", "10", "-1", "18", "80", "abc", ""}[c.R.Intn(7)]) // none of the library's business
+		defer os.Unsetenv("COLUMNS")
+	}
 	if e.node != nil && e.kind != "RUN" {
 		policy = app.PolicyAt(e.node) // help, version and rejections follow the policy of the command that decides
 		d.Policy = policyName(policy)
